@@ -57,6 +57,15 @@ const OddAddrBase = 1000
 func OddAddr(i int) sdk.Address {
 	n, k := i/OddAddrBase, i%OddAddrBase
 	base := []byte(sdk.Address(Pub(k).Address()))
+	if n >= 8 {
+		// 8000+k / 9000+k: a 20-byte address whose first one / two bytes are 0x51 (the byte the pos
+		// module uses as the prefix of its award queue keys)
+		out := append([]byte{}, base...)
+		for j := 0; j < n-7; j++ {
+			out[j] = 0x51
+		}
+		return sdk.Address(out)
+	}
 	l := 17 + n
 	out := make([]byte, l)
 	copy(out, base)
